@@ -10,7 +10,14 @@ NOUPD = [(False, '', 'none'), (True, 'true', 'none'), (False, 'true', 'false'), 
 
 def make_spec(g, allow):
     h = gen_history(g, allow, max_tests=3, max_calls=4)
-    return dict(cfgs=h.cfgs, execs=h.execs, flags=set(h.flags), mode=g.r.choice(NOUPD), seed=g.r.randrange(1 << 30), edit=suites.edit_choice(g.r, h.execs))
+    spec = dict(cfgs=h.cfgs, execs=h.execs, flags=set(h.flags), mode=g.r.choice(NOUPD), seed=g.r.randrange(1 << 30))
+    # the recorded files as a checkout with core.autocrlf leaves them (CR LF or mixed line endings):
+    # the entries are still there, so every changed value is still reported and nothing is created
+    spec['crlf'] = g.r.choice(suites.CRLF_MODES) if g.r.random() < 0.15 and 'cr' not in spec['flags'] else None
+    if spec['crlf']:
+        spec['flags'].add('crlf-file')
+    spec['edit'] = None if spec['crlf'] else suites.edit_choice(g.r, h.execs)
+    return spec
 
 
 def render(tag, spec):
@@ -28,6 +35,9 @@ def render(tag, spec):
         rec[ei] = emit_exec(w, texec, name, calls)
     if spec.get('edit'):
         w.add('fsedit ' + spec['edit'])
+    if spec.get('crlf'):
+        for op in suites.crlf_ops(spec['cfgs'], spec['crlf']):
+            w.add(op)
     ref = w.add('fsdump')
     ci, upd, cfgupd = spec['mode']
     w.add('reset')
@@ -41,7 +51,7 @@ def render(tag, spec):
         texec += 1
         w.add('begin %d %s' % (texec, core.hx(name)))
         for k, (cfgno, c) in enumerate(calls):
-            m, mtag = mutate_call(g, c)
+            m, mtag = mutate_call(g, c, eol=True)
             ri = rec[ei][k]
             if m is None:
                 w.add(c.op(cfgno, texec))
@@ -202,7 +212,9 @@ def run(ctx):
     n = 150 if ctx.tier == 'quick' else 5000
     worlds = [render('c02-%d' % i, make_spec(g, (('nosafn',) if g.r.random() < 0.5 else ()) + (('punct',) if g.r.random() < 0.3 else ()))) for i in range(n)]
     from gen import Call
-    for i, (a, b) in enumerate([(b'a\n---\nb', b'a\n/-/-/-/\nb'), (b'/-/-/-/', b'---'), (b'x\n/-/-/-/\n', b'x\n---\n'), (b'---\n---', b'---\n/-/-/-/')]):
+    for i, (a, b) in enumerate([(b'a\n---\nb', b'a\n/-/-/-/\nb'), (b'/-/-/-/', b'---'), (b'x\n/-/-/-/\n', b'x\n---\n'), (b'---\n---', b'---\n/-/-/-/'),
+                                # standalone values differing only in their line endings
+                                (b'a\nb', b'a\r\nb'), (b'a\r\nb', b'a\nb'), (b'id,name\r\n1,x\r\n', b'id,name\n1,x\n'), (b'x\n\n', b'x\n\r\n')]):
         spec = dict(cfgs=[cfg_line(1, 'snaps')], execs=[(b'TestSwap', [(1, Call('sasnap', a))])], flags=set(),
                     mode=NOUPD[i % len(NOUPD)], seed=i)
         w = render('c02-swap-%d' % i, spec)
